@@ -285,6 +285,28 @@ def h_list_rules(E):
     return err
 
 
+def h_unordered_subgrader_list(E):
+    """an unordered ListGrader is never built with a LIST of subgraders - whatever the number of subgraders (one included) and of answers, in every
+    answers format, keyword or dictionary form"""
+    import mitxgraders as m
+    from mitxgraders.exceptions import ConfigError
+    from voluptuous import Error as Invalid
+    n_sub = E.fork_int('n_subgraders', 1, 3)
+    n_ans = E.fork_int('n_answers', 1, 3)
+    form = E.choice('answers_form', ['list', 'tuple-of-lists', 'two-alternative-lists'])
+    as_dict = E.fork_bool('dictionary_form')
+    base = ['a', 'b', 'c'][:n_ans]
+    answers = {'list': list(base), 'tuple-of-lists': (list(base),), 'two-alternative-lists': (list(base), list(reversed(base)))}[form]
+    cfg = dict(answers=answers, subgraders=[m.StringGrader() for _ in range(n_sub)], ordered=False)
+    try:
+        m.ListGrader(cfg) if as_dict else m.ListGrader(**cfg)
+        err = False
+    except (ConfigError, Invalid):
+        err = True
+    E.check('unordered-only-with-single-subgrader-and-counts-match', err)
+    return err
+
+
 def h_single_answer_list(E):
     import mitxgraders as m
     from mitxgraders.exceptions import ConfigError
@@ -581,6 +603,7 @@ def harnesses(tier):
     add(h_single_answer_list, 'single_answer_list', {}, '0-3 answers')
     for i in range(len(GROUPINGS)):
         add(h_grouping, 'grouping', dict(i=i), str(GROUPINGS[i][0]))
+    add(h_unordered_subgrader_list, 'unordered_subgrader_list', {}, '1-3 subgraders in a list x 1-3 answers x 3 answer formats x keyword/dictionary form', validate=False)
     add(h_grouping_sizes, 'grouping_sizes', {}, '2-4 groups, sizes 1..4 as symbolic integers, ordered/unordered, blocks/interleaved', validate=False)
     add(h_nested_delims, 'nested_delimiters', {}, '3x3 delimiters')
     add(h_collisions, 'collisions', {}, 'presence flags')
